@@ -283,7 +283,8 @@ class Check:
         self.notes: list[str] = []
         self._nontrivial: set = set()
         self.evaluations = 0
-        self.known = [f for f in load_known_findings() if f.get("property") == prop and f.get("status") == "known"]
+        # known findings are looked up by id; a finding recorded under one property may surface in the check of another
+        self.known = [f for f in load_known_findings() if f.get("status") == "known"]
 
     # -- bookkeeping -----------------------------------------------------------------------
     def count(self, key=None, nontrivial: bool = True):
